@@ -581,3 +581,39 @@ SPECS["C19"] = dict(
     level_text="complete over the whole state space (not bounded): the solver proves the step equals the Park-Miller recurrence for all 2^31-2 states and every draw is in range",
     level_note="LP64 only; trusted: clang, z3, the irsym translator (differentially validated each run)",
 )
+
+
+# ------------------------------------------------------------------------------------------------
+# C12: argument validation
+import c12 as _c12
+
+
+def c12_jobs(tier):
+    return [dict(harness="sym_glue", pattern=r"^rules-", label="symmetric solvers: every SortRule as selection and as sorting", deadline=200),
+            dict(harness="gen_glue", pattern=r"^genrules-", label="general solvers: every SortRule as selection and as sorting", deadline=250),
+            dict(harness="c07_krylov", pattern=r"^init-zero-vector", label="zero / sub-threshold start vector", deadline=60),
+            dict(harness="c11_ops", pattern=r"^nonsquare/", label="non-square matrices up to 4x4 in the wrappers", deadline=120),
+            dict(harness="c03_geigs", pattern=r"^backtransform/.*/nev1/LargestAlge", label="sigma == 0 in buckling / Cayley mode (symbolic sigma)", deadline=120),
+            dict(harness="c18_sort", pattern=r"^argsort/real/(LargestReal|LargestImag|SmallestReal|SmallestImag)/len[0-3]$", label="argsort rejects rules undefined for real values", deadline=60)]
+
+
+SPECS["C12"] = dict(
+    run=std_run, jobs=c12_jobs, post=_c12.post,
+    explanation=("Argument validation decided at two levels. (a) Constructor ranges on the compiler IR (irsym): extern-C wrappers around the real constructors of SymEigsSolver, SymEigsShiftSolver, HermEigsSolver, "
+                 "GenEigsSolver, GenEigsRealShiftSolver, GenEigsComplexShiftSolver with a user-defined operator whose rows() is an argument are compiled with clang -O1; every path of the IR ends in "
+                 "'throws std::invalid_argument' or 'constructed', and for ALL 64-bit (n >= 0, nev, ncv) the solver proves: a throwing path is only taken outside the documented range and a constructing path only "
+                 "inside it (1 <= nev <= n-1, nev < ncv <= n; general solvers 1 <= nev <= n-2, nev+2 <= ncv <= n). (b) Source level (symx): compute() with each of the nine SortRule values as selection and as sorting "
+                 "raises invalid_argument iff the rule is not supported by that solver family (symmetric incl. shift-invert and nev = 1; general incl. real-shift); init() rejects a zero and a sub-threshold "
+                 "start vector before applying the operator; all ten wrappers reject non-square shapes up to 4x4; sigma == 0 is rejected in buckling and Cayley mode and only there (symbolic sigma); argsort "
+                 "rejects rules undefined for real vectors. A rejected PartialSVDSolver construction leaks nothing (concrete replay of the fixed defect)."),
+    functions=["HermEigsBase / GenEigsBase lvalue constructors (via 6 solver classes, IR)", "HermEigsBase::sort_ritzpair, retrieve_ritzpair -> argsort; GenEigsBase::retrieve_ritzpair, sort_ritzpair", "Arnoldi::init zero check",
+               "SymGEigsShiftSolver::set_shift_and_move", "wrapper constructors (shape checks)"],
+    bounds={"constructor triples": "all 64-bit Index values with n >= 0", "rules": "9 x {selection, sorting} x 5 solver configurations", "non-square": "all r x c, r != c <= 4"},
+    outside=["the five generalized solver classes' constructors at IR level (their operator is moved into a heap container and the size is re-loaded from memory that irsym does not model; they share the second, textually "
+             "identical copy of the checks in HermEigsBase)", "DavidsonSymEigsSolver constructor (loop over n)", "PartialSVDSolver range (it forwards to SymEigsSolver)", "-0.0 vs 0.0 for sigma (exact reals)"],
+    assumptions=["std::invalid_argument's constructor and __cxa_allocate_exception do not throw (listed as opaque calls)"],
+    policy=dict(events="ignore", allow_cut=False),
+    technique="IR-level symbolic execution of the real constructors (all Index values) + source-level symbolic execution of rule / vector / shape / shift validation",
+    level_text="complete over all 64-bit argument triples for six solver constructors; exhaustive over the nine rules; symbolic over sigma",
+    level_note="generalized-solver constructors and Davidson not encoded at IR level; LP64",
+)
